@@ -18,7 +18,9 @@ import (
 	"reflect"
 	"slices"
 	"strconv"
+	"strings"
 	"sync"
+	"sync/atomic"
 	"testing"
 	"time"
 
@@ -54,8 +56,12 @@ var space = engine.Space{
 	engine.D("auth_time", "-30", "absent", "-7200", "-602", "-601", "-600", "-599", "-598", "0", "3600"),
 	engine.D("nonce", "absent", "n1", "n2"),
 	engine.D("acr", "absent", "a1", "zz"),
-	engine.D("at_hash", "absent", "right", "wrong", "fullhash", "other-token"),
-	engine.D("alg", "ES256", "RS256", "PS256", "ES384", "ES512", "EdDSA"),
+	// at_hash: L/F/O<bits> = left half / full digest of SHA-<bits>(at1) / left half of SHA-<bits>(at2),
+	// R-jwa = RIGHT half of the JWA hash of at1, junk = a constant. Which of them is "right"
+	// depends on the signing algorithm and is decided by the oracle, not by the alphabet.
+	engine.D("at_hash", atHashVariants...),
+	// every signature algorithm the library knows (pkg/crypto/hash.go, go-jose asymmetric list)
+	engine.D("alg", "ES256", "RS256", "PS256", "ES384", "ES512", "EdDSA", "RS384", "RS512", "PS384", "PS512"),
 	engine.D("sig", "valid", "wrongkey"),
 	// verifier
 	engine.D("offset", "1s", "0s", "5s"),
@@ -64,18 +70,38 @@ var space = engine.Space{
 	engine.D("phase", "250ms", "750ms"),
 	engine.D("nonceHook", "empty", "nil", "n1"),
 	engine.D("acrV", "nil", "a1a2"),
-	engine.D("algs", "default", "token-alg", "other-alg"),
-	engine.D("mode", "tokens", "idonly"),
+	engine.D("algs", "default", "token-alg", "all", "all-but-token"),
+	// entry point and claims container: VerifyTokens[*IDTokenClaims], VerifyIDToken[*IDTokenClaims],
+	// VerifyIDToken[*TokenClaims], VerifyIDToken[*AccessTokenClaims] (the three oidc.Claims types of pkg/oidc/token.go)
+	engine.D("mode", "tokens", "idonly", "idonly-base", "idonly-access"),
 }
+
+var atHashVariants = []string{"absent", "L256", "L384", "L512", "F256", "F384", "F512", "O256", "O384", "O512", "R-jwa", "junk"}
+
+// allAlgs is the complete list of asymmetric JWS algorithms known to the library
+// (crypto.GetHashAlgorithm rows; go-jose: RS*, PS*, ES*, EdDSA).
+var allAlgs = []string{"RS256", "RS384", "RS512", "PS256", "PS384", "PS512", "ES256", "ES384", "ES512", "EdDSA"}
 
 // ---------------------------------------------------------------------------
 // signing with cache
 
-var sigCache sync.Map
+// sigCache maps sha256(alg|wrong|payload) to the signed token. It is a pure
+// memo (RSA signing ≈1 ms, the same payload recurs for every verifier
+// configuration); it is emptied when it grows large so that thorough runs stay
+// far below the engine's memory budget.
+var (
+	sigCache   atomic.Pointer[sync.Map]
+	sigCacheN  atomic.Int64
+	sigCacheMu sync.Mutex
+)
+
+const sigCacheMax = 300_000
+
+func init() { sigCache.Store(new(sync.Map)) }
 
 func signKey(alg string, wrong bool) *keys.Key {
 	switch alg {
-	case "RS256", "PS256":
+	case "RS256", "RS384", "RS512", "PS256", "PS384", "PS512":
 		if wrong {
 			return keys.Get("rsa4")
 		}
@@ -99,25 +125,32 @@ func signKey(alg string, wrong bool) *keys.Key {
 }
 
 func sign(alg string, wrong bool, payload []byte) string {
-	k := alg + "|" + strconv.FormatBool(wrong) + "|" + string(payload)
-	if v, ok := sigCache.Load(k); ok {
+	k := sha256.Sum256([]byte(alg + "|" + strconv.FormatBool(wrong) + "|" + string(payload)))
+	m := sigCache.Load()
+	if v, ok := m.Load(k); ok {
 		return v.(string)
 	}
 	key := signKey(alg, wrong)
+	tok := keys.SignCompact(key, jose.SignatureAlgorithm(alg), "k1", payload)
 	if wrong && (alg == "ES384" || alg == "ES512") {
 		// no second fixture of that curve: sign correctly, then corrupt the signature
-		tok := keys.SignCompact(key, jose.SignatureAlgorithm(alg), "k1", payload)
 		b := []byte(tok)
 		if b[len(b)-2] == 'A' {
 			b[len(b)-2] = 'B'
 		} else {
 			b[len(b)-2] = 'A'
 		}
-		sigCache.Store(k, string(b))
-		return string(b)
+		tok = string(b)
 	}
-	tok := keys.SignCompact(key, jose.SignatureAlgorithm(alg), "k1", payload)
-	sigCache.Store(k, tok)
+	m.Store(k, tok)
+	if sigCacheN.Add(1) > sigCacheMax {
+		sigCacheMu.Lock()
+		if sigCacheN.Load() > sigCacheMax {
+			sigCache.Store(new(sync.Map))
+			sigCacheN.Store(0)
+		}
+		sigCacheMu.Unlock()
+	}
 	return tok
 }
 
@@ -129,8 +162,7 @@ func (staticKeySet) VerifySignature(ctx context.Context, jws *jose.JSONWebSignat
 		return nil, errors.New("need exactly one signature")
 	}
 	alg := jws.Signatures[0].Header.Algorithm
-	switch alg {
-	case "RS256", "PS256", "ES256", "ES384", "ES512", "EdDSA":
+	if slices.Contains(allAlgs, alg) {
 		return jws.Verify(signKey(alg, false).PubForJose())
 	}
 	return nil, errors.New("no key")
@@ -139,22 +171,85 @@ func (staticKeySet) VerifySignature(ctx context.Context, jws *jose.JSONWebSignat
 // ---------------------------------------------------------------------------
 // reference: left-half hash, written against the spec, not the library
 
-func refHalfHash(alg, s string, full bool) string {
+// jwaBits is the digest size of the hash JWA (RFC 7518 §3.1) assigns to a
+// signature algorithm: xS256 → SHA-256, xS384 → SHA-384, xS512 → SHA-512
+// (OIDC Core 3.1.3.6: "the hash algorithm used in the alg header parameter").
+// EdDSA: Ed25519 hashes with SHA-512, which is also what the library documents
+// (pkg/crypto/hash.go) — decision kept from the first version of this check.
+// 0 = the algorithm has no hash (none, empty).
+func jwaBits(alg string) int {
+	switch {
+	case alg == "EdDSA":
+		return 512
+	case len(alg) == 5 && strings.HasSuffix(alg, "256"):
+		return 256
+	case len(alg) == 5 && strings.HasSuffix(alg, "384"):
+		return 384
+	case len(alg) == 5 && strings.HasSuffix(alg, "512"):
+		return 512
+	}
+	return 0
+}
+
+// refDigest is SHA-<bits>(s), standard library only.
+func refDigest(bits int, s string) []byte {
 	var h hash.Hash
-	switch alg {
-	case "RS256", "PS256", "ES256":
+	switch bits {
+	case 256:
 		h = sha256.New()
-	case "ES384":
+	case 384:
 		h = sha512.New384()
-	default:
+	case 512:
 		h = sha512.New()
+	default:
+		panic(bits)
 	}
 	h.Write([]byte(s))
-	sum := h.Sum(nil)
-	if !full {
-		sum = sum[:len(sum)/2]
+	return h.Sum(nil)
+}
+
+// atHashValue is the concrete claim value of an at_hash variant ("" = absent)
+// for a token signed with alg.
+func atHashValue(variant, alg string) string {
+	enc := base64.RawURLEncoding.EncodeToString
+	switch variant {
+	case "absent":
+		return ""
+	case "junk":
+		return "AAAAAAAAAAAAAAAAAAAAAA"
+	case "R-jwa":
+		bits := jwaBits(alg)
+		if bits == 0 {
+			bits = 256
+		}
+		d := refDigest(bits, at1)
+		return enc(d[len(d)/2:])
 	}
-	return base64.RawURLEncoding.EncodeToString(sum)
+	bits, _ := strconv.Atoi(variant[1:])
+	switch variant[0] {
+	case 'L':
+		d := refDigest(bits, at1)
+		return enc(d[:len(d)/2])
+	case 'F':
+		return enc(refDigest(bits, at1))
+	case 'O':
+		d := refDigest(bits, at2)
+		return enc(d[:len(d)/2])
+	}
+	panic(variant)
+}
+
+// atHashRight names the one variant that is the left-half JWA hash of token
+// (at1 or at2) under alg; "" if alg has no hash.
+func atHashRight(alg, token string) string {
+	bits := jwaBits(alg)
+	if bits == 0 {
+		return ""
+	}
+	if token == at2 {
+		return "O" + strconv.Itoa(bits)
+	}
+	return "L" + strconv.Itoa(bits)
 }
 
 type tri int
@@ -171,6 +266,7 @@ type caseT struct {
 	wrong   bool
 	now     time.Time
 	v       *rp.IDTokenVerifier
+	mode    string
 	tokens  bool
 }
 
@@ -335,23 +431,13 @@ func build(v engine.Vec) (c caseT, want tri, rule string) {
 	}
 	c.alg = g("alg")
 	c.wrong = g("sig") == "wrongkey"
-	c.tokens = g("mode") == "tokens"
-	switch g("at_hash") {
-	case "right":
-		p["at_hash"] = refHalfHash(c.alg, at1, false)
-	case "wrong":
-		p["at_hash"] = "AAAAAAAAAAAAAAAAAAAAAA"
-		if c.tokens {
-			reject("at_hash-mismatch")
-		}
-	case "fullhash":
-		p["at_hash"] = refHalfHash(c.alg, at1, true)
-		if c.tokens {
-			reject("at_hash-mismatch")
-		}
-	case "other-token":
-		p["at_hash"] = refHalfHash(c.alg, at2, false)
-		if c.tokens {
+	c.mode = g("mode")
+	c.tokens = c.mode == "tokens"
+	// "a present at_hash must be the left-half hash of exactly that access token":
+	// exactly one variant is right, the left half of the JWA hash of at1 for the header algorithm
+	if ah := g("at_hash"); ah != "absent" {
+		p["at_hash"] = atHashValue(ah, c.alg)
+		if c.tokens && ah != atHashRight(c.alg, at1) {
 			reject("at_hash-mismatch")
 		}
 	}
@@ -391,10 +477,12 @@ func build(v engine.Vec) (c caseT, want tri, rule string) {
 	case "token-alg":
 		allowed = []string{c.alg}
 		opts = append(opts, rp.WithSupportedSigningAlgorithms(c.alg))
-	case "other-alg":
-		o := "RS384"
-		allowed = []string{o}
-		opts = append(opts, rp.WithSupportedSigningAlgorithms(o))
+	case "all":
+		allowed = allAlgs
+		opts = append(opts, rp.WithSupportedSigningAlgorithms(allAlgs...))
+	case "all-but-token":
+		allowed = slices.DeleteFunc(slices.Clone(allAlgs), func(a string) bool { return a == c.alg })
+		opts = append(opts, rp.WithSupportedSigningAlgorithms(allowed...))
 	}
 	if !slices.Contains(allowed, c.alg) {
 		reject("alg-not-allowed")
@@ -411,17 +499,53 @@ func build(v engine.Vec) (c caseT, want tri, rule string) {
 	return c, want, rule
 }
 
+// view is what the check reads back from whichever claims container was used.
+type view struct {
+	isNil  bool
+	base   *oidc.TokenClaims
+	atHash string         // only *IDTokenClaims carries it as a field
+	custom map[string]any // nil for *TokenClaims (no custom-claim map)
+	hasMap bool
+	idType bool
+}
+
 func run(t *testing.T, v engine.Vec) engine.Result {
 	c, want, rule := build(v)
 	payload, _ := json.Marshal(c.payload)
 	tok := sign(c.alg, c.wrong, payload)
-	var claims *oidc.IDTokenClaims
+	var got view
 	var err error
+	idView := func(cl *oidc.IDTokenClaims) view {
+		if cl == nil {
+			return view{isNil: true}
+		}
+		return view{base: &cl.TokenClaims, atHash: cl.AccessTokenHash, custom: cl.Claims, hasMap: true, idType: true}
+	}
 	pan := engine.Bubble(t, c.now.Sub(engine.Epoch), func() {
-		if c.tokens {
-			claims, err = rp.VerifyTokens[*oidc.IDTokenClaims](context.Background(), at1, tok, c.v)
-		} else {
-			claims, err = rp.VerifyIDToken[*oidc.IDTokenClaims](context.Background(), tok, c.v)
+		ctx := context.Background()
+		switch c.mode {
+		case "tokens":
+			var cl *oidc.IDTokenClaims
+			cl, err = rp.VerifyTokens[*oidc.IDTokenClaims](ctx, at1, tok, c.v)
+			got = idView(cl)
+		case "idonly":
+			var cl *oidc.IDTokenClaims
+			cl, err = rp.VerifyIDToken[*oidc.IDTokenClaims](ctx, tok, c.v)
+			got = idView(cl)
+		case "idonly-base":
+			var cl *oidc.TokenClaims
+			cl, err = rp.VerifyIDToken[*oidc.TokenClaims](ctx, tok, c.v)
+			got = view{isNil: cl == nil, base: cl}
+		case "idonly-access":
+			var cl *oidc.AccessTokenClaims
+			cl, err = rp.VerifyIDToken[*oidc.AccessTokenClaims](ctx, tok, c.v)
+			if cl == nil {
+				got = view{isNil: true}
+			} else {
+				got = view{base: &cl.TokenClaims, custom: cl.Claims, hasMap: true}
+			}
+		default:
+			panic(c.mode)
 		}
 	})
 	if pan != "" {
@@ -433,15 +557,15 @@ func run(t *testing.T, v engine.Vec) engine.Result {
 	}
 	switch {
 	case want == mustReject && err == nil:
-		return engine.Bad(rule, outcome, "C01/accepted-but-must-reject/"+rule, fmt.Sprintf("token %s accepted although the statement requires rejection (%s)", payload, rule))
+		return engine.Bad(rule, outcome, "C01/accepted-but-must-reject/"+rule, fmt.Sprintf("token %s (alg %s) accepted although the statement requires rejection (%s)", payload, c.alg, rule))
 	case want == mustAccept && err != nil:
-		return engine.Bad(rule, outcome, "C01/rejected-but-must-accept/"+errClass(err), fmt.Sprintf("valid token %s rejected: %v", payload, err))
+		return engine.Bad(rule, outcome, "C01/rejected-but-must-accept/"+errClass(err), fmt.Sprintf("valid token %s (alg %s) rejected: %v", payload, c.alg, err))
 	}
 	if err == nil {
-		if d := claimsDiff(claims, c.payload, c.alg); d != "" {
+		if d := claimsDiff(got, c.payload, c.alg); d != "" {
 			return engine.Bad(rule, "accepted-claims-changed", "C01/claims-changed/"+d, "returned claims differ from the signed payload: "+d)
 		}
-	} else if claims != nil {
+	} else if !got.isNil {
 		return engine.Bad(rule, outcome, "C01/claims-returned-with-error", "claims returned together with an error")
 	}
 	return engine.OK(rule, outcome)
@@ -459,10 +583,11 @@ func errClass(err error) string {
 }
 
 // claimsDiff compares the returned claims with the signed payload ("" = equal).
-func claimsDiff(c *oidc.IDTokenClaims, p map[string]any, alg string) string {
-	if c == nil {
+func claimsDiff(g view, p map[string]any, alg string) string {
+	if g.isNil || g.base == nil {
 		return "nil-claims"
 	}
+	c := g.base
 	str := func(k string) string { s, _ := p[k].(string); return s }
 	tm := func(k string) int64 {
 		if v, ok := p[k].(int64); ok {
@@ -498,36 +623,103 @@ func claimsDiff(c *oidc.IDTokenClaims, p map[string]any, alg string) string {
 		return "nonce"
 	case c.AuthenticationContextClassReference != str("acr"):
 		return "acr"
-	case c.AccessTokenHash != str("at_hash"):
-		return "at_hash"
 	case string(c.SignatureAlg) != alg:
 		return "signature-alg"
-	case !reflect.DeepEqual(c.Claims["x-custom"], p["x-custom"]):
-		return "custom-claim"
+	}
+	if g.hasMap {
+		if !reflect.DeepEqual(g.custom["x-custom"], p["x-custom"]) {
+			return "custom-claim"
+		}
+		// at_hash: a field of *IDTokenClaims, an entry of the custom-claim map of *AccessTokenClaims
+		ah := g.atHash
+		if !g.idType {
+			ah, _ = g.custom["at_hash"].(string)
+		}
+		if ah != str("at_hash") {
+			return "at_hash"
+		}
 	}
 	return ""
 }
 
 func TestCheck(t *testing.T) {
 	c := engine.Start(t, "C01")
-	c.SetRule("E1: for each interacting group {aud,azp} / {exp,iat,auth_time,offset,maxIAT,maxAge,phase} / {alg,at_hash,algs,mode,sig} the full product, crossed with every <=k deviations of all other dimensions; each vector executed on rp.VerifyIDToken/VerifyTokens in a synctest bubble; distinct = (oracle rule, observed outcome class)")
+	c.SetRule("E1, part verify: for each interacting group {aud,azp} / {alg(10),at_hash(12),algs,mode,sig} / {at_hash,mode,sig} / {exp,iat,auth_time,offset,maxIAT,maxAge,phase} the full product, crossed with every <=k deviations of all other dimensions; each vector executed on rp.VerifyIDToken/VerifyTokens in a synctest bubble; part athash: full product alg(15) x at_hash(12) x access token(2) on rp.VerifyAccessToken; distinct = (oracle rule, observed outcome class)")
 	c.Assume("go standard library and go-jose signature primitives are correct",
 		"clock-rounding band: |offset|+1s around each time boundary is judged Either (DESIGN §1.6)",
-		"absent iat without configured maximum is judged Either (DESIGN §1.6)")
+		"absent iat without configured maximum is judged Either (DESIGN §1.6)",
+		"the hash belonging to a signature algorithm is the JWA one (xS256/xS384/xS512 -> SHA-256/384/512); EdDSA -> SHA-512 as documented in pkg/crypto/hash.go",
+		"library default of allowed algorithms is RS256, ES256, PS256 (oidc/verifier.go)")
 	kTime := engine.Pick(c, 1, 2)
 	kRest := engine.Pick(c, 2, 3)
+	kAlg := engine.Pick(c, 1, 2)
 	c.RunE1(engine.E1{
 		Part:  "verify",
 		Space: space,
 		Groups: [][]string{
 			{"aud", "azp"},
 			{"alg", "at_hash", "algs", "mode", "sig"},
+			{"at_hash", "mode", "sig"},
 			{"exp", "iat", "auth_time", "offset", "maxIAT", "maxAge", "phase"},
 		},
-		Ks: []int{kRest, kRest, kTime},
+		Ks: []int{kRest, kAlg, kRest, kTime},
 		NewWorker: func(int) func(engine.Vec) engine.Result {
 			return func(v engine.Vec) engine.Result { return run(t, v) }
 		},
 	})
+	c.RunE1(engine.E1{
+		Part:  "athash",
+		Space: atSpace,
+		K:     len(atSpace),
+		NewWorker: func(int) func(engine.Vec) engine.Result {
+			return runAtHash
+		},
+	})
 	c.Finish()
+}
+
+// ---------------------------------------------------------------------------
+// part athash: rp.VerifyAccessToken directly, over every value of
+// jose.SignatureAlgorithm (the 10 asymmetric ones, the 3 HMAC ones) plus
+// "none" and the empty string.
+
+var atSpace = engine.Space{
+	engine.D("alg", append(slices.Clone(allAlgs), "HS256", "HS384", "HS512", "none", "")...),
+	engine.D("at_hash", atHashVariants...),
+	engine.D("token", at1, at2),
+}
+
+func runAtHash(v engine.Vec) engine.Result {
+	alg, variant, token := atSpace.Get(v, "alg"), atSpace.Get(v, "at_hash"), atSpace.Get(v, "token")
+	known := slices.Contains(allAlgs, alg)
+	val := atHashValue(variant, alg)
+	want, rule := either, "unsupported-alg"
+	switch {
+	case variant == "absent":
+		// "a present at_hash must be ...": nothing to compare
+		if known {
+			want, rule = mustAccept, "at_hash-absent"
+		}
+	case variant == atHashRight(alg, token):
+		if known {
+			want, rule = mustAccept, "at_hash-right"
+		}
+	default:
+		want, rule = mustReject, "at_hash-mismatch"
+	}
+	var err error
+	if pan := engine.Safe(func() { err = rp.VerifyAccessToken(token, val, jose.SignatureAlgorithm(alg)) }); pan != "" {
+		return engine.Bad(rule, "panic", "C01/panic", pan)
+	}
+	outcome := "accepted"
+	if err != nil {
+		outcome = "rejected:" + errClass(err)
+	}
+	switch {
+	case want == mustReject && err == nil:
+		return engine.Bad(rule, outcome, "C01/accepted-but-must-reject/VerifyAccessToken/"+rule, fmt.Sprintf("VerifyAccessToken(%q, %q [%s], %q) = nil although the value is not the left-half hash of that access token", token, val, variant, alg))
+	case want == mustAccept && err != nil:
+		return engine.Bad(rule, outcome, "C01/rejected-but-must-accept/VerifyAccessToken/"+errClass(err), fmt.Sprintf("VerifyAccessToken(%q, %q [%s], %q) = %v", token, val, variant, alg, err))
+	}
+	return engine.OK(rule, outcome)
 }
